@@ -33,84 +33,35 @@ def dec(x):
 
 def dec_case(d):
     d = dec(d)
-    spec = dict(before=[tuple(h) for h in d['app']['before']], after=[tuple(h) for h in d['app']['after']],
-                errh=[tuple(e) for e in d['app']['errh']])
-    return spec, dict(d['req'])
+    return spec_of(d['app']), dict(d['req'])
 
 
-class CLWatch:
-    """records `HeaderDict.setdefault('Content-Length', v)` calls that insert the key"""
-
-    def __enter__(self):
-        from ombott.common_helpers import HeaderDict
-        self.cls = HeaderDict
-        self.orig = HeaderDict.setdefault
-        self.inserted = None
-        watch = self
-
-        def setdefault(hd, key, value):
-            if key == 'Content-Length' and key not in hd:
-                watch.inserted = value
-            return watch.orig(hd, key, value)
-        HeaderDict.setdefault = setdefault
-        return self
-
-    def __exit__(self, *a):
-        self.cls.setdefault = self.orig
+def spec_of(a):
+    spec = dict(before=[tuple(h) for h in a['before']], after=[tuple(h) for h in a['after']],
+                errh=[tuple(e) for e in a['errh']])
+    if 'catchall' in a:
+        spec['catchall'] = a['catchall']
+    if a.get('edits'):
+        spec['edits'] = {side: {int(k): tuple(v) for k, v in (a['edits'].get(side) or {}).items()}
+                         for side in ('before', 'after')}
+    if a.get('shared'):
+        spec['shared'] = dict(a['shared'])
+    return spec
 
 
 def run_real(spec, req, validate=False):
     """one request through a fresh real application; returns a dict of observations"""
-    log, fails = zoo.Log(), []
+    log = zoo.Log()
     app = zoo.make_app(spec, log)
     cur = dict(routes=set(), prog=None)
-    zoo.install_route(app, log, req, cur)
-    if req['route'][0] == 'h':
-        cur['prog'] = (req['route'][1], req['route'][2], None)
-    env = zoo.make_environ(req, log)
-    urlrepr = zoo.url_repr(env, req, app.config)
-    starts = []
-    complaints = []
-
-    def sr(status, headers, exc_info=None):
-        log.append('S')
-        starts.append((status, list(headers), exc_info is not None))
-        return lambda b: None
-
-    target = app
-    if validate:
-        def shim(environ, start_response):
-            def sr2(*a, **kw):
-                try:
-                    return start_response(*a, **kw)
-                except AssertionError as e:
-                    complaints.append('start_response: ' + str(e)[:160])
-                    # record what the application tried to emit
-                    log.append('S')
-                    starts.append((a[0], list(a[1]) if isinstance(a[1], list) else a[1], len(a) > 2 and a[2] is not None))
-                    raise
-            return app(environ, sr2)
-        target = validator(shim)
-    escaped = None
-    data, shape = b'', ''
-    with CLWatch() as w, warnings.catch_warnings():
-        warnings.simplefilter('ignore')
-        try:
-            result = target(env, sr)
-            try:
-                data, shape = zoo.consume(result, log)
-            except AssertionError as e:
-                complaints.append('iteration: ' + str(e)[:160])
-        except AssertionError as e:
-            complaints.append('call: ' + str(e)[:160])
-        except Exception as e:     # an exception escaping the application
-            escaped = type(e).__name__
-    return dict(log=log, starts=starts, data=data, shape=shape, cl=w.inserted, escaped=escaped,
-                complaints=complaints, urlrepr=urlrepr, fails=fails)
+    return zoo.serve_one(app, log, cur, req, validate=validate)
 
 
 def answer(obs):
     ev = '.'.join(obs['log']) if obs['log'] else '-'
+    hooks = ' hooks=' + '/'.join(','.join(map(str, l)) if l else '-' for l in obs['hooks'])
+    if obs['escaped']:
+        return f'ev={ev} escaped' + hooks
     st = obs['starts']
     if len(st) == 1:
         status, headers, exc = st[0]
@@ -120,9 +71,57 @@ def answer(obs):
     else:
         start = f'n={len(st)}'
         cl = '-'
-    if obs['escaped']:
-        return f'escaped {obs["escaped"]}'
-    return f'ev={ev} {start} body={hb(obs["data"])} shape={obs["shape"] or "-"} cl={cl}'
+    return f'ev={ev} {start} body={hb(obs["data"])} shape={obs["shape"] or "-"} cl={cl}' + hooks
+
+
+def start_registration(spec):
+    """the two hook lists (registration numbers, call order) a fresh application starts with:
+    before-hooks in registration order, after-hooks in reverse"""
+    return (list(range(len(spec['before']))), list(reversed(range(len(spec['after'])))))
+
+
+def expected_run(reg, fails):
+    """-> (hooks that run, first failing one or None)"""
+    out = []
+    for i in reg:
+        out.append(i)
+        if fails(i):
+            return out, i
+    return out, None
+
+
+def next_registration(spec, reg):
+    """what the hooks that ran did to their own list (`remove_hook` of itself / of another hook,
+    `add_hook` of a new one): the list the NEXT emission starts from.  A hook added during an
+    emission runs from the next request on (before: appended, after: prepended); removing a hook
+    does not un-run it in the emission that is under way."""
+    edits = spec.get('edits') or {}
+    out = []
+    for side, lst in (('before', reg[0]), ('after', reg[1])):
+        n = len(spec[side])
+        fails = lambda i: i < n and spec[side][i][1][0] != 'ok'
+        ran, _ = expected_run(lst, fails)
+        live = list(lst)
+        fresh = max([n - 1] + live) + 1
+        # numbers of added hooks are handed out in the order of the `add_hook` calls, as the zoo does
+        fresh = max(fresh, spec.setdefault('_fresh', {}).get(side, n))
+        for i in ran:
+            e = (edits.get(side) or {}).get(i) if i < n else None
+            if not e:
+                continue
+            if e[0] == 'rs' and i in live:
+                live.remove(i)
+            elif e[0] == 'ro' and e[1] in live:
+                live.remove(e[1])
+            elif e[0] == 'an':
+                if side == 'before':
+                    live.append(fresh)
+                else:
+                    live.insert(0, fresh)
+                fresh += 1
+        spec['_fresh'][side] = fresh
+        out.append(live)
+    return tuple(out)
 
 
 BODYLESS = lambda code: 100 <= code < 200 or code in (204, 304)
@@ -334,8 +333,30 @@ class C03(Check):
     # ------------------------------------------------------------------
     def _oracle(self, spec, req):
         """the property's clauses checked directly on a validated run; returns [(key, what)]"""
-        bad = []
         obs = run_real(spec, req, validate=True)
+        return self._clauses(spec, req, obs, start_registration(spec))
+
+    def _oracle_history(self, spec, hist):
+        """a short history on ONE application: every clause must hold for every answer (the second
+        and later ones included); the hook lists the later requests start from are followed by the
+        oracle's own book-keeping of what the hooks did to them"""
+        from harness import c09
+        spec.pop('_fresh', None)
+        srv = c09.Server(spec)
+        reg = start_registration(spec)
+        bad = []
+        for i, h in enumerate(hist):
+            obs = srv.serve_obs(h, validate=True)
+            for key, what in self._clauses(spec, h['req'], obs, reg, ctype_is_framework=True):
+                bad.append((key, f'answer {i + 1} of {len(hist)} ({h["kind"]}): {what}'))
+            if bad:
+                break
+            if h['req']['path_ok']:
+                reg = next_registration(spec, reg)
+        return bad
+
+    def _clauses(self, spec, req, obs, reg, ctype_is_framework=False):
+        bad = []
         log, starts = obs['log'], obs['starts']
         route = req['route']
         if obs['escaped']:
@@ -377,27 +398,35 @@ class C03(Check):
         for c in set(closes):
             if closes.count(c) > 1:
                 bad.append(('double-close', f'handler object {c[1:]} closed {closes.count(c)} times'))
-        for oid in sorted(log.produced):
+        for oid in sorted(obs['produced']):
             if closes.count(f'c{oid}') != 1:
                 bad.append(('not-closed', f'iterable {oid} produced output and was closed '
                                           f'{closes.count(f"c{oid}")} times'))
-        # (h) hooks
-        nb, na = len(spec['before']), len(spec['after'])
+        # Content-Type of a framework error page (only when no program part sets Content-Type)
+        if ctype_is_framework and obs['data'] and not exc:
+            ctypes = [v for k, v in headers if k.lower() == 'content-type']
+            if obs['data'].startswith(b'<!doctype html><html><head><title>Error: ') and ctypes != ['text/html; charset=UTF-8']:
+                bad.append(('content-type', f'HTML error page sent as {ctypes}'))
+            if obs['data'].startswith(b'{"body": ') and obs['data'].endswith(b'}') and ctypes != ['application/json']:
+                bad.append(('content-type', f'JSON error body sent as {ctypes}'))
+        if not req['path_ok']:
+            return bad            # hooks and routing are for requests with a decodable path
+        # (h) hooks: every hook registered when the emission starts runs once, in list order, up to the
+        # first failing one
+        fails = lambda side, idx: idx < len(spec[side]) and spec[side][idx][1][0] != 'ok'
+        exp_b, b_fail = expected_run(reg[0], lambda i: fails('before', i))
+        exp_a, a_fail = expected_run(reg[1], lambda j: fails('after', j))
         b_ev = [int(e[1:]) for e in log if e[0] == 'b']
         a_ev = [int(e[1:]) for e in log if e[0] == 'a']
-        b_fail = next((i for i, h in enumerate(spec['before']) if h[1][0] != 'ok'), None)
-        exp_b = list(range(nb if b_fail is None else b_fail + 1))
         if b_ev != exp_b:
-            bad.append(('before-hooks', f'before hooks ran {b_ev}, expected {exp_b}'))
+            bad.append(('before-hooks', f'before hooks ran {b_ev}, expected {exp_b} (registered {reg[0]})'))
         if ('r' in log) != (b_fail is None) or log.count('r') > 1:
             bad.append(('routing-after-before-hooks', f'routing events {log.count("r")} with failing hook {b_fail}'))
         if 'r' in log and b_ev and log.index('r') < max(i for i, e in enumerate(log) if e[0] == 'b'):
             bad.append(('before-hooks', 'a before hook ran after routing'))
-        a_fail = next((j for j in reversed(range(na)) if spec['after'][j][1][0] != 'ok'), None)
-        exp_a = list(reversed(range(na))) if a_fail is None else list(reversed(range(a_fail, na)))
         if a_ev != exp_a:
-            bad.append(('after-hooks', f'after hooks ran {a_ev}, expected {exp_a} '
-                                       f'(route {route[0]}, failing before hook {b_fail})'))
+            bad.append(('after-hooks', f'after hooks ran {a_ev}, expected {exp_a} (registered {reg[1]}, '
+                                       f'route {route[0]}, failing before hook {b_fail})'))
         if a_ev:
             first_a = min(i for i, e in enumerate(log) if e[0] == 'a')
             last_other = max([i for i, e in enumerate(log) if e[0] in 'brh'] or [-1])
@@ -407,14 +436,16 @@ class C03(Check):
         hooks_ok = b_fail is None and a_fail is None
         has500 = any(c == 500 for c, _ in spec['errh'])
         failed = False
-        if route[0] == 'h' and hooks_ok:
-            if route[2][0] == 'ex' or log.failed:
+        if route[0] == 'h' and hooks_ok and 'h' in log:
+            if route[2][0] == 'ex' or obs['failed']:
                 failed = True
-            elif route[2][0] == 'ret' and route[2][1][0] == 'it':
+            elif route[2][0] == 'ret' and route[2][1][0] == 'it' and not obs['failed']:
                 items = [i for i in route[2][1][3] if i[0] != 'e']
                 failed = bool(items) and items[0][0] == 'ex'
         hook_exc = (b_fail is not None and spec['before'][b_fail][1][0] == 'ex' and a_fail is None) or \
                    (a_fail is not None and spec['after'][a_fail][1][0] == 'ex')
+        if not req['path_ok']:
+            failed = hook_exc = False
         if (failed or hook_exc) and not has500 and code != 500:
             bad.append(('failure-not-500', f'handler/hook failure answered {status!r}'))
         return bad
@@ -448,6 +479,19 @@ class C03(Check):
                        query='', route=('h', effs, ('ret', o)))
             cases.append((dict(before=[], after=[], errh=[]), req))
         cases += systematic_cases()
+        hists = self._history_cases(rng, max(150, n // 8))
+        for spec, hist in hists:
+            if len({f.key for f in findings}) >= 8 or len(findings) >= 60:
+                break
+            if not all(self._in_domain(spec, h['req'], in_history=True) for h in hist):
+                continue
+            evals += 1
+            try:
+                bad = zoo.watchdog(lambda: self._oracle_history(spec, hist), 30)
+            except zoo.HangB:
+                bad = [('hang', 'history did not finish within 30 s')]
+            for key, what in bad:
+                findings.append(Finding(f'C03:{key}', what, dict(kind='history', app=enc(self._clean(spec)), hist=enc(hist))))
         for spec, req in cases:
             if not self._in_domain(spec, req):
                 continue
@@ -462,11 +506,52 @@ class C03(Check):
                 findings.append(Finding(f'C03:{key}', what, dict(app=enc(spec), req=enc(req))))
         return evals, findings
 
-    def _in_domain(self, spec, req):
+    @staticmethod
+    def _clean(spec):
+        return {k: v for k, v in spec.items() if not k.startswith('_')}
+
+    def _history_cases(self, rng, count):
+        """two or three requests on one application: the same response object answered more than once
+        (the framework's errors_map singletons, a module-level HTTPError / HTTPResponse of the application)
+        with URLs of different length and both representations; hooks that edit their own list"""
+        from harness import c09
+        g = zoo.Gen(rng, safe_headers=True, odd_status=False)
+        g.safe_names = ['X-A', 'X-B', 'ETag', 'x_y', 'Allow', 'Last-Modified']     # Content-Type stays the framework's
+        repeatable = ['chunked-garbage', 'oversize', 'bad-json', 'request-error', 'app-error', 'app-error', 'app-resp',
+                      'nf', 'badpath', 'cookie-then-body-error', 'crash']
+        others = ['ok-text', 'ok-cookie', 'head', 'iterable', 'raise-resp', 'ret-error', 'na', 'good-body', 'ok-zoo']
+        out = []
+        for _ in range(count):
+            spec = g.app() if rng.random() < .6 else dict(before=[], after=[], errh=[])
+            spec.pop('catchall', None)
+            spec['shared'] = dict(c09.SHARED)
+            k = rng.choice(repeatable)
+            kinds = [k, k] if rng.random() < .6 else [k, rng.choice(others), k]
+            if rng.random() < .2:
+                kinds = [rng.choice(repeatable + others) for _ in range(rng.choice([2, 3]))]
+            hist = []
+            for i, kind in enumerate(kinds):
+                c09.RAISE_SINGLETONS[0] = True
+                try:
+                    h = c09.gen_hreq(g, rng, i + 1, kind, spec)
+                finally:
+                    c09.RAISE_SINGLETONS[0] = False
+                # URLs of clearly different length, alternating representations
+                h['req']['tail'] = rng.choice(['', 'a', 'long/' * (i + 1) * rng.choice([1, 3]) + 'x'])
+                h['req']['query'] = 'q=' + 'v' * rng.choice([0, 1, 7, 23]) if rng.random() < .7 else ''
+                if h['req'].get('json') and not zoo.json_safe(spec, h['req']):
+                    h['req']['json'] = False
+                hist.append(h)
+            out.append((spec, hist))
+        return out
+
+    def _in_domain(self, spec, req, in_history=False):
         """the property's quantifier: decodable path, homogeneous iterables, binary files, statuses =
         codes or strings of the documented form 'ddd reason'"""
-        if not req['path_ok']:
-            return False
+        if not req['path_ok'] and not in_history:
+            return False          # inside a history an undecodable path is answered too; the hook clauses skip it
+        if spec.get('catchall', True) is False:
+            return False          # the option asks for exceptions to propagate
         if not all(WELLFORMED_STATUS.fullmatch(x) for x in status_strings(spec, req)):
             return False
         all_effs = [e for effs, _ in spec['before'] + spec['after'] for e in effs]
@@ -523,6 +608,14 @@ class C03(Check):
         return any(from_out(o) for o in outs)
 
     def replay(self, data):
+        if data['input'].get('kind') == 'history':
+            d = dec(data['input'])
+            spec, hist = spec_of(d['app']), [dict(x, req=dict(x['req'])) for x in d['hist']]
+            try:
+                verdict = zoo.watchdog(lambda: self._oracle_history(spec, hist), 30)
+            except zoo.HangB:
+                verdict = [['hang', 'history did not finish within 30 s']]
+            return dict(oracle=verdict, violates=bool(verdict), input=data['input'])
         spec, req = dec_case(data['input'])
         try:
             verdict = zoo.watchdog(lambda: self._oracle(spec, req), 20)
